@@ -132,9 +132,20 @@ class BaseSession(SessionInterface, Generic[MessageT]):
         snapshot = await mbx.snapshot()
         return snapshot, await self._load_updates(selected, mbx)
 
+    def _new_name(self, name: str, *, strip: bool = False) -> str:
+        delimiter = self.mailbox_set.delimiter
+        if strip and name.endswith(delimiter) and name != delimiter:
+            # a trailing hierarchy delimiter only declares that inferior
+            # names will follow, it is not part of the name (RFC 3501 6.3.3)
+            name = name[:-len(delimiter)]
+        if name.isascii() and name.upper() == 'INBOX':
+            raise MailboxConflict(name)
+        return name
+
     async def create_mailbox(self, name: str,
                              selected: SelectedMailbox | None = None) \
             -> tuple[ObjectId, SelectedMailbox | None]:
+        name = self._new_name(name, strip=True)
         try:
             mailbox_id = await self.mailbox_set.add_mailbox(name)
         except ValueError as exc:
